@@ -12,6 +12,9 @@ identity: 'full'  -> output must have the first raster's shape, dims, coords (sc
 import numpy as np
 
 
+AUX = {}
+
+
 class Fn:
     def __init__(self, name, call, nr=1, identity="full", dask=True, kinds="iuf", needs=None, heavy=False):
         self.name, self.call, self.nr, self.identity, self.dask = name, call, nr, identity, dask
@@ -36,6 +39,8 @@ def build_funcs():
         return np.nansum(kv * kv)
 
     F = []
+    AUX.clear()
+    AUX.update({"k33": k33, "k35": k35})      # caller-owned array arguments other than rasters (kernels): monitored too
     add = F.append
     add(Fn("slope", lambda r: xs.slope(r[0])))
     add(Fn("aspect", lambda r: xs.aspect(r[0])))
